@@ -103,4 +103,54 @@ Section Blocks2.
     lookup "t_0" vs = Some t0 -> lookup "t" vs = Some t -> lookup "f_0" vs = Some f0 -> lookup "f" vs = Some f ->
     exec ext draw_ret (mkState vs ev) = Ok (CReturn (VTuple [w0; w; v0; v; t0; t; f0; f])) (mkState vs ev).
   Proof. intros. unfold draw_ret. run. reflexivity. Qed.
+
+  (* ---- head ------------------------------------------------------------------------------------------ *)
+  (* the float32 lengths: torch.full((N,), T, dtype=torch.float) or lengths.to(device).float() *)
+  Definition L_of (T : nat) (lens : option (list Z)) (n : nat) : Q :=
+    match lens with
+    | None => Model.r32 a (Model.z2q (Z.of_nat T))
+    | Some l => Model.r32 a (Model.z2q (nth n l 0%Z))
+    end.
+
+  Definition lens_ok (N T : nat) (lens : option (list Z)) : Prop :=
+    match lens with None => True | Some l => List.length l = N /\ lens_in_range T l = true end.
+
+  Definition vars_head (eps : Q) (c : Model.cfg) (N T F : nat) (lens : option (list Z)) : list (string * val) :=
+    update "lengths" (enc_f (T1 N (L_of T lens)))
+      (update "omeps" (VQ (Qred (inject_Z 1 - eps)))
+         (update "eps" (VQ eps)
+            (update "device" device_token
+               (update "F" (VInt (Z.of_nat F))
+                  (update "T" (VInt (Z.of_nat T))
+                     (update "N" (VInt (Z.of_nat N))
+                        (update "$t1" (VTuple [VInt (Z.of_nat N); VInt (Z.of_nat T); VInt (Z.of_nat F)])
+                           (draw_vars eps c N T F lens)))))))).
+
+  Lemma tmap_list {X Y} (f : X -> Y) (d : X) (l : list X) :
+    tmap f (mkTn [List.length l] l) = T1 (List.length l) (fun n => f (nth n l d)).
+  Proof.
+    unfold tmap, T1. cbn [shp dat]. f_equal.
+    apply (nth_ext _ _ (f d) (f d)); [now rewrite !map_length, seq_length|].
+    intros n Hn. rewrite map_length in Hn. rewrite map_nth.
+    rewrite (MiniTorch.Lemmas.nth_map_seq (fun n => f (nth n l d))) by assumption. reflexivity.
+  Qed.
+
+  Lemma cmp_is_none_none : cmp_eval Is VNone VNone = Some true.  Proof. reflexivity. Qed.
+  #[local] Arguments cmp_eval : simpl never.
+  Ltac hrun := repeat first [ run1 | progress (change (Pos.to_nat 1) with 1%nat; change (Pos.to_nat 2) with 2%nat)
+                            | progress rewrite ?cmp_is_none_l, ?cmp_is_none_none ].
+
+  Lemma head_run eps c N T F lens : lens_ok N T lens ->
+    exec ext draw_head (mkState (draw_vars eps c N T F lens) [])
+    = Ok CNormal (mkState (vars_head eps c N T F lens) []).
+  Proof.
+    intros Hok. unfold draw_head, vars_head, draw_vars, globals08, lengths_val. destruct lens as [l|].
+    - destruct Hok as [HN HR]. subst N.
+      erewrite exec_seq_ok; [ | run; rewrite (ext_check_lens a rnd (List.length l) T F eps l _ eq_refl HR); reflexivity ].
+      erewrite exec_seq_ok; [ | solve [hrun; reflexivity] ].
+      stmt. stmt. stmt. hrun. rewrite (tmap_list _ 0%Z). close_state.
+    - erewrite exec_seq_ok; [ | run; rewrite (ext_check_none a rnd N T F eps); reflexivity ].
+      erewrite exec_seq_ok; [ | solve [hrun; reflexivity] ].
+      stmt. stmt. stmt. hrun. close_state.
+  Qed.
 End Blocks2.
